@@ -22,7 +22,8 @@ THEOREMS = [P + t for t in (
     "log_counts", "log_perm_invariant", "inferSite_idem", "asm_eq_topo", "asm_inference_matters",
     "legacy_mirror_counterexample",
     "value_objects_private", "live_slice_is_stored", "unwritten_element_keeps_its_value", "collect_unchanged_by_reads_and_pokes",
-    "read_modify_write", "memo_reads_counterexample")]
+    "read_modify_write", "memo_reads_counterexample",
+    "views_live", "presented_after_history", "collect_after_history", "kept_view_counterexample")]
 TRUSTED_BASE = [
     "gen/authz.py: behavioural probes of ResourceAuthZAttributes on stand-in containers of real slivers (one node of every "
     "NodeType, one service of every ServiceType with / without site / with its mirrored port in the slice, 100 "
@@ -49,7 +50,10 @@ TRUSTED_BASE = [
     "the model's collection is a function of the slice as presented; that what a LIVE topology object presents after an edit "
     "(get_sliver() of a node whose components changed, the lookup views) is the slice as it is now - nothing kept from an earlier "
     "collection - is H_present over time: checked by the edit histories (collect, edit, collect again on the same object, each "
-    "stage against the harness's own description of the edited slice and against the model serialised from it), not proved",
+    "stage against the harness's own description of the edited slice and against the model serialised from it), not proved; "
+    "the one generated flag in it, `viewsLive`, is a behavioural probe on ONE real two-node topology that grows and shrinks on the "
+    "nodes it has (gen/authz.py `_views_live`); Model/Authz.lean `View` (a topology object = the stored slice + what an earlier read "
+    "may have kept) carries presented_after_history for that flag",
     "value objects (Model/Authz.lean `VObj`): an element stores a value, a read hands out an object of its own, a write stores the "
     "object's value at that moment; `readsFresh` is a behavioural probe on a real two-node topology (gen/authz.py), the step "
     "function is checked differentially on real topologies (`vobj` requests: reads through the attribute / get_property / "
@@ -928,6 +932,17 @@ def check_authz(sl, reply, pdp_dict, pdp_json, res, case, entry):
             if v not in attrs.get(k, []):
                 bad("complete:" + _short(k), "authorization request does not name the %s" % why.split(" ")[0] + " it must (%s)" % _short(k),
                     expected={"attribute": k, "value": v, "why": why}, observed=attrs.get(k, []))
+    # ... and ONLY then: a site listed for a mirror / an external service is the site of some mirror service whose mirrored
+    # port is outside the slice / of some external service of that kind (direct reading of the "only when" half)
+    req = required(sl)
+    for k in (R.RESOURCE_MIRROR_SITE, R.RESOURCE_FABNETV4_EXT, R.RESOURCE_FABNETV6_EXT):
+        allowed = [v for v, _ in req.get(k, [])]
+        for v in attrs.get(k, []):
+            if v not in allowed:
+                bad("sound:" + _short(k), "authorization request lists a site under %s that no service of the slice accounts for "
+                    "(a mirror site is listed only when the mirrored port is outside the slice) (%s)" % (_short(k), entry),
+                    expected=allowed, observed=attrs.get(k, []))
+                break
     # PDP request: every attribute in exactly one category - the table's - once, with its values and data type
     cats = pdp_dict["Request"]["Category"]
     ids = [c["CategoryId"] for c in cats]
@@ -1305,7 +1320,47 @@ def edit_topo(t, ts, e):
         raise ValueError(op)
 
 
-def gen_edits(ts, rng, n):
+def growth_edits(ts, rng, step):
+    """A slice that was already collected GROWS in place without any node being added: a NIC attached to an existing node, a
+    bridge on its first port whose service port is labelled, a mirror of that very port (or of a relative of its name) onto
+    another free dedicated port, and (half of the time) the bridge removed again - the mirrored port is in the slice from the
+    second edit to the third and outside it after the fourth.  Every view of the slice read at an earlier stage (the list of
+    all interfaces, the nodes, the services) has to show the slice as it is NOW.  Applies the edits to `ts` (in place)."""
+    models = probe_models()
+    dedicated = sorted(m for m, (_, k, _) in models.items() if k > 0 and not m.startswith("SharedNIC"))
+    two = [m for m in dedicated if models[m][1] >= 2]
+    out = []
+
+    def push(e):
+        edit_spec(ts, e)
+        out.append(e)
+
+    def attach(i, tag, pool):
+        nd = ts["nodes"][i]
+        names = {c["name"] for c in nd["comps"]}
+        nm = [x for x in T_COMP_FAM + ["g%d%s" % (step, tag)] if x not in names][0]
+        push({"op": "add_comp", "node": i, "name": nm, "model": rng.choice(pool)})
+        return (i, len(nd["comps"]) - 1)
+    i = rng.randrange(len(ts["nodes"]))
+    others = [x for x in _free_ports(ts) if not ts["nodes"][x[0]]["comps"][x[1]]["model"].startswith("SharedNIC")]
+    a = attach(i, "a", dedicated if (others or not two) else two)
+    ln = rng.choice(T_PORT_FAM)
+    bridge = len(ts["svcs"])
+    push({"op": "add_svc", "svc": {"name": "gbr%d" % step, "t": "L2Bridge", "ifs": [a + (0,)], "labels": [ln], "bw": rng.choice([None, 10]),
+                                   "mp": None, "fac": None, "decl": False}})
+    target = rng.choice(others) if others and rng.random() < 0.7 else None
+    if target is None:
+        free = [x for x in _free_ports(ts) if x[:2] == a]
+        target = free[0] if free else attach(rng.randrange(len(ts["nodes"])), "b", dedicated) + (0,)
+    mp = ln if rng.random() < 0.7 else rng.choice(T_PORT_FAM)
+    push({"op": "add_svc", "svc": {"name": "gpm%d" % step, "t": "PortMirror", "ifs": [target], "labels": [None], "bw": rng.choice([None, 5]),
+                                   "mp": mp, "fac": None, "decl": False}})
+    if rng.random() < 0.5:
+        push({"op": "rm_svc", "svc": bridge})
+    return out
+
+
+def gen_edits(ts, rng, n, grow_at=None):
     """n edits of a slice, each applicable to the slice as the earlier ones left it: components attached to / detached from
     a node (separate graph nodes: the node's own properties stay as they are), nodes, services on free ports, facilities and
     the switch added / removed, a node renamed / resized / moved to another site (a node without ports: validate() refuses
@@ -1317,6 +1372,9 @@ def gen_edits(ts, rng, n):
     ts = _norm_ts(ts)
     edits = []
     for step in range(n):
+        if step == grow_at:
+            edits.extend(growth_edits(ts, rng, step))
+            continue
         cand = []
         used_nodes = {r[0] for s in ts["svcs"] for r in s["ifs"]}
         for i, nd in enumerate(ts["nodes"]):
@@ -1420,7 +1478,8 @@ def gen_edits(ts, rng, n):
 
 def corner_histories():
     """(initial slice, edits): components attached to and detached from nodes that were collected before, and nothing else
-    touched in between; a NIC (with its own service) attached and detached; a node's own property changed between"""
+    touched in between; a NIC (with its own service) attached and detached; a node's own property changed between
+    (a slice growing on the nodes it has - NIC, labelled bridge, mirror of that port, bridge removed: corpus/C11/12)"""
     two = {"name": "c0", "model": "SmartNIC_ConnectX_6"}
     base = {"nodes": [{"name": "n1", "site": "RENC", "caps": [2, 8, 10], "hints": None, "comps": [dict(two)]},
                       {"name": "n2", "site": "UKY", "caps": [4, 16, 100], "hints": None, "comps": [dict(two, name="c1")]}],
@@ -1522,7 +1581,14 @@ def history_runs(ctx, n=None, steps=None):
             ts = gen_tspec(rng, 1 + i % 2)
             if i % 2:
                 _twin(ts, rng)
-            hs.append((ts, gen_edits(ts, rng, steps or ctx.scale(5, 8))))
+            k = steps or ctx.scale(5, 8)
+            hs.append((ts, gen_edits(ts, rng, k, grow_at=rng.randrange(k))))
+        # growth only, on a small slice that has no mirror yet (a mirror site listed already would hide a second one at the
+        # same site): collected, grown on the nodes it has, collected after every step
+        for i in range(ctx.scale(2, 12)):
+            ts = gen_tspec(rng, 1 if ctx.scale(True, False) else 1 + i % 2)
+            ts["svcs"] = [s for s in ts["svcs"] if s["t"] != "PortMirror"]
+            hs.append((ts, growth_edits(_norm_ts(ts), rng, i)))
         out = []
         for ts0, edits in hs:
             for ts, run in run_history(ts0, edits):
